@@ -110,6 +110,9 @@ def check(prop, scn, seed, models=None, skipped=None, extra_probes=None, judge_a
                 why = spec["accept"](models[ex["name"]], definition=scn["machines"][ex["machine"]]["definition"])
                 if why and why != "no-fanout-failure":
                     return {"evaluations": 1, "probes": {"skipped:" + str(why): 1}, "findings": [], "distinct": []}
+    if any(mo is not None and getattr(mo.flags, "big_data", False) for mo in models.values()):
+        # (whatever slice the scenario comes from: the reference model does not know the data quota)
+        return {"evaluations": 1, "probes": {"skipped:data-near-quota": 1}, "findings": [], "distinct": []}
     timing_sensitive = scn["config"].get("latency", "zero") != "zero" and \
         "TimeoutSeconds" in json.dumps([m["definition"] for m in scn["machines"].values()])
     mons = spec["monitors"]({} if timing_sensitive else models)
